@@ -27,7 +27,9 @@ CLAIMED = {
                   "solution), that along every path a register read at the end and not overwritten on the way is live at the start, that returns "
                   "cover what callers read, and that 'unused value' is reported only on a destination not live out. Tied to analysis/liveness.rs by "
                   "comparing the live/udef sets of every node after the pass on generated programs; an independent Kleene iteration in the checker "
-                  "recomputes the least solution from the implementation's own graph and reports the program on any difference.",
+                  "recomputes the least solution from the implementation's own graph and reports the program on any difference. Props/C02pipe.v discharges "
+                  "the well-formedness hypotheses for the graph the pipeline hands to the pass: for every pipeline output the statements hold with no premise "
+                  "but the pass having returned.",
              design="8/C02", note=NOTE + "Hypothesis wf_live (function ids resolve, returns have no successors) is what C03/C11 establish for pipeline graphs. Non-termination of the pass is C06's business (OutOfFuel is excluded by the theorem's premise).",
              technique="Coq proof (fixed-point/least-solution argument) + differential correspondence"),
  "C03": dict(text="CFG, both directions. Coq theorems prove for every program and every exit choice that after every pipeline stage nexts/prevs are exact "
